@@ -30,6 +30,10 @@ pub use setup::{AgentOptions, setup};
 pub use uni::spawn_unipayload_handler;
 pub use util::process_multiple_changes;
 
+// Verification hooks (feature `verif-hooks`): re-exports for the /verif harness.  Additive only.
+#[cfg(feature = "verif-hooks")]
+pub use handlers::{handle_changes, handle_notifications, handle_sync};
+
 pub const ANNOUNCE_INTERVAL: Duration = Duration::from_secs(300);
 pub const RANDOM_NODES_CHOICES: usize = 10;
 
